@@ -66,6 +66,24 @@ def configs(tier):
             for g in (F(0), F(1, 8)):
                 gt = f"g{g.numerator}_{g.denominator}"
                 out.append(mkcfg(f"kk-{tag}-{gt}", "KK", "none", N, F(1), g=g))
+    # a null mean other than 1/2 (N t = 1 with N = 4: totals hit N t exactly after a single 1)
+    for N in ([0, 4] if tier == "quick" else [0, 4, 8]):
+        tag = "inf" if N == 0 else f"N{N}"
+        q = F(1, 4)
+        out.append(mkcfg(f"alpha-fixed-t14-{tag}", "ALPHA", "fixed", N, F(1), t=q))
+        out.append(mkcfg(f"alpha-shrink-t14-{tag}", "ALPHA", "shrink", N, F(1), t=q, d=2, c=F(1, 4)))
+        out.append(mkcfg(f"bet-fixed-t14-{tag}", "BETTING", "fixedbet", N, F(1), t=q, lam=F(1)))
+        out.append(mkcfg(f"bet-agrapa-t14-{tag}", "BETTING", "agrapa", N, F(1), t=q, lam=F(1, 2)))
+        out.append(mkcfg(f"sprt-t14-{tag}", "SPRT", "none", N, F(1), t=q))
+        if N:
+            out.append(mkcfg(f"kk-t14-{tag}", "KK", "none", N, F(1), t=q, g=F(1, 8)))
+        else:
+            out.append(mkcfg(f"km-t14-{tag}", "KM", "none", N, F(1), t=q, g=F(1, 8)))
+            out.append(mkcfg(f"kw-t14-{tag}", "KW", "none", N, F(1), t=q, g=F(1, 8)))
+    # the smallest margins (u -> 1+): optimal_comparison with the default assumed error rate
+    for N in Ns:
+        tag = "inf" if N == 0 else f"N{N}"
+        out.append(mkcfg(f"alpha-optcomp-tiny-{tag}", "ALPHA", "optcomp", N, F(65537, 65536)))
     # extra code-only variants (estimator parameters the specification does not transcribe)
     for N in Ns:
         tag = "inf" if N == 0 else f"N{N}"
@@ -239,9 +257,25 @@ def run_sample(tst, cfg, xs, buf=None):
     else:
         x = np.array([float(v) for v in xs])
     if all(v.denominator == 1 for v in xs) and (sum(int(v) for v in xs) + n) % 2 == 0:
-        xin = lambda: np.array([int(v) for v in xs])      # an integer array (plain lists are not accepted by all tests)
+        # whole-number samples also arrive as integer or boolean arrays (e.g. votes == winner)
+        # (boolean arrays only where the running mean / variance helper is not involved: it cannot subtract booleans)
+        okbool = all(v <= 1 for v in xs) and cfg["estim"] not in ("shrink", "shrinkf", "agrapa", "agrapag")
+        dt = [np.int64, np.int8, bool if okbool else np.int32][(n + sum(int(v) for v in xs) // 2) % 3]
+        xin = lambda: np.array([int(v) for v in xs]).astype(dt)
     else:
         xin = lambda: x
+    # a test object is a live object: between two uses its population size may be set to something else and back
+    if (n + len(cfg["name"])) % 3 == 0:
+        try:
+            realN = tst.N
+            tst.N = (n + 3) if not np.isfinite(realN) else realN + 3
+            with warnings.catch_warnings():
+                warnings.simplefilter("ignore")
+                tst.test(np.array([float(v) for v in xs]))
+        except Exception:
+            pass
+        finally:
+            tst.N = realN
     try:
         with warnings.catch_warnings():
             warnings.simplefilter("ignore")
@@ -301,9 +335,12 @@ def random_walk_samples(cfg, rng, n_walks, length, k=4):
     """random long samples beyond the exhaustive bound: each walk is a chain x[1..1], x[1..2], ... (depth-first)"""
     gr = grid(cfg, k)
     out = []
-    for _ in range(n_walks):
+    for w in range(n_walks):
         L = length if cfg["N"] == 0 else min(length, cfg["N"])
         xs = [rng.choice(gr) for _ in range(L)]
+        if w % 2 == 1:      # a long run of the smallest or the largest value first
+            run = rng.randint(L // 4, max(L // 4, (3 * L) // 4))
+            xs[:run] = [gr[0] if w % 4 == 1 else gr[-1]] * run
         for j in range(1, L + 1):
             out.append(tuple(xs[:j]))
             if j < L:   # one alternative continuation, so that sibling clauses are exercised
@@ -316,6 +353,8 @@ def random_walk_samples(cfg, rng, n_walks, length, k=4):
 
 def site_of(cfg):
     s = f"{cfg['method']}/{cfg['estim']}/{'inf' if cfg['N'] == 0 else 'fin'}/u={cfg['u']}"
+    if cfg["t"] != F(1, 2):
+        s += f"/t={cfg['t']}"
     if cfg["method"] in ("KK", "KM", "KW"):
         s += f"/g={cfg['g']}"
     if not cfg["ro"]:
